@@ -1126,7 +1126,7 @@ class EventBus:
                         parent_event = bus.event_history[current.event_parent_id]
                         break
 
-            if not parent_event:
+            if parent_event is None:  # (not its truth value: an event subclass may define __len__ / __bool__)
                 break
 
             # Check if parent can be marked complete
@@ -1488,7 +1488,7 @@ class EventBus:
                 parent_event = bus.event_history[event.event_parent_id]
                 break
 
-        if not parent_event:
+        if parent_event is None:
             return depth
 
         # Check if this handler processed the parent event
